@@ -562,6 +562,13 @@ static TIMED_OUT: std::sync::atomic::AtomicBool = std::sync::atomic::AtomicBool:
 
 /// C19+C20 oracle for the datagrams of ONE report() call
 pub fn check_jaeger(service: &str, batch: &[Rec], datagrams: &[Vec<u8>], prop: &str) -> Vec<Viol> {
+    check_jaeger_with(service, batch, datagrams, prop, &|_| None)
+}
+
+/// `alone(i)`: for a record whose reference size is within 10 bytes of the limit, whether a fresh
+/// reporter transmits it when it is reported alone (the metamorphic reading of "fits alone");
+/// None = not determined, the record is then exempt
+pub fn check_jaeger_with(service: &str, batch: &[Rec], datagrams: &[Vec<u8>], prop: &str, alone: &dyn Fn(usize) -> Option<bool>) -> Vec<Viol> {
     let mut out = vec![];
     let mut got: Vec<Rec> = vec![];
     for (i, d) in datagrams.iter().enumerate() {
@@ -590,7 +597,9 @@ pub fn check_jaeger(service: &str, batch: &[Rec], datagrams: &[Vec<u8>], prop: &
         let size = reference_emit_batch(service, std::slice::from_ref(r)).len();
         let exp = jaeger_expected(r);
         let here = got.get(gi) == Some(&exp);
-        if size + 10 < UDP_LIMIT {
+        let zone = size + 10 >= UDP_LIMIT && size < UDP_LIMIT + 10;
+        let verdict = if zone { alone(i) } else { None };
+        if size + 10 < UDP_LIMIT || verdict == Some(true) {
             if here {
                 gi += 1;
             } else {
@@ -626,7 +635,7 @@ pub fn check_jaeger(service: &str, batch: &[Rec], datagrams: &[Vec<u8>], prop: &
                     break;
                 }
             }
-        } else if size >= UDP_LIMIT + 10 {
+        } else if size >= UDP_LIMIT + 10 || verdict == Some(false) {
             if here {
                 out.push(v("oversize-span-sent", format!("record {} needs {} bytes alone but was transmitted", i, size)));
                 gi += 1;
@@ -909,7 +918,22 @@ pub fn run_jaeger_seq(udp: &UdpSink, prior: &[Vec<Rec>], batch: &[Rec], prop: &s
     match res {
         Err(e) => Outcome::Inconclusive(e),
         Ok(dgrams) => {
-            let mut vs = check_jaeger(&service(), batch, &dgrams, prop);
+            // records within 10 bytes of the limit: "fits alone" is what a fresh reporter does
+            // with the record alone
+            let mut alone_map: std::collections::HashMap<usize, bool> = std::collections::HashMap::new();
+            if batch.len() > 1 {
+                for (i, r) in batch.iter().enumerate() {
+                    let size = reference_emit_batch(&service(), std::slice::from_ref(r)).len();
+                    if size + 10 >= UDP_LIMIT && size < UDP_LIMIT + 10 && alone_map.len() < 40 {
+                        let mut fresh = fastrace_jaeger::JaegerReporter::new(addr, service()).unwrap();
+                        let rec = vec![r.to_record()];
+                        if let Ok(d) = capture_udp(udp, move || fresh.report(rec)) {
+                            alone_map.insert(i, !d.is_empty());
+                        }
+                    }
+                }
+            }
+            let mut vs = check_jaeger_with(&service(), batch, &dgrams, prop, &|i| alone_map.get(&i).copied());
             // validate the reference encoder against the real single-span datagrams
             if batch.len() == 1 && dgrams.len() == 1 {
                 let refb = reference_emit_batch(&service(), batch);
